@@ -294,7 +294,7 @@ def check_config(cfg, counters, viols, case_of):
                 pass
 
 
-SIDES = ['unbound', 'unbound_chain', 'async', 'blocking', 'fallback', 'other']
+SIDES = ['unbound', 'unbound_chain', 'async', 'blocking', 'fallback', 'other', 'blocking_on_current_chain']
 
 
 def _side(kind, cur, other):
@@ -318,6 +318,12 @@ def _side(kind, cur, other):
         s = Stream()
         b = s.buffer(2)
         return [s, b], s, 'bg', False
+    if kind == 'blocking_on_current_chain':
+        # declared blocking but on the caller's loop; the node taking part in the connect has inherited the loop only
+        # (a blocking declaration is not handed down at creation), so the conflict with an asynchronous side sits one node deeper
+        s = Stream(asynchronous=False, loop=cur)
+        m = s.map(lambda x: x)
+        return [s, m], m, 'current', False
     s = Stream(loop=other)
     return [s], s, 'other', None
 
@@ -338,11 +344,20 @@ def check_connect(up_kind, down_kind, counters, viols):
             un, u, ul, ua = _side(up_kind, cur, other)
             dn, d, dl, da = _side(down_kind, cur, other)
             conflict = (ul is not None and dl is not None and ul != dl) or (ua is not None and da is not None and ua != da)
+            before = [(n.loop, n.asynchronous) for n in un + dn]
             try:
                 u.connect(d)
                 raised = None
             except ValueError as ex:
                 raised = ex
+            if raised is not None:
+                # a refused connect leaves both pipelines as they were
+                if d in list(u.downstreams) or u in list(d.upstreams):
+                    add('C19:refused-connect-left-the-edge@connect', '%r raised %r but the two nodes are linked' % (cfg, raised))
+                elif [(n.loop, n.asynchronous) for n in un + dn] != before:
+                    add('C19:refused-connect-changed-the-pipelines@connect', '%r raised %r; loop/asynchronous of the nodes before %s, after %s'
+                        % (cfg, raised, [(_lk(l, cur, other, score), a) for l, a in before],
+                           [(_lk(n.loop, cur, other, score), n.asynchronous) for n in un + dn]))
             counters['configurations_checked'] = counters.get('configurations_checked', 0) + 1
             counters['conflict_expectations_checked'] = counters.get('conflict_expectations_checked', 0) + 1
             counters['connect_configurations_checked'] = counters.get('connect_configurations_checked', 0) + 1
